@@ -6,7 +6,6 @@ import (
 	"strings"
 
 	"github.com/whoisnian/glb/util/netutil"
-	"github.com/whoisnian/glb/util/strutil"
 )
 
 // Params consists of a pair of key-value slice.
@@ -93,8 +92,12 @@ func CreateHandler(httpHandler http.HandlerFunc) HandlerFunc {
 }
 
 // GetID returns the Store's ID like FVHNU2LS-gjdgxz.
+//
+// The result is a copy: the Store and its id buffer go back to the pool when the request is
+// done, and a string over that buffer - kept in a response header, a log field or a map - would
+// turn into the id of whichever request uses the Store next.
 func (store *Store) GetID() string {
-	return strutil.UnsafeBytesToString(store.id)
+	return string(store.id)
 }
 
 // GetClientIP looks for possible client IP by the following order:
